@@ -21,6 +21,8 @@ LEVEL_TEXT = {
  'C17': 'Every reachable configuration of machines with flags on simple states, submachine states and substates (and on terminate/interrupt states) is checked for every flag and operator against the active configuration; the answers are part of the state identity, so path dependence cannot hide; inside behaviours the flags are compared with the policy-defined configuration.',
  'C18': 'A machine mixing exact, base-class (2 levels) and Kleene triggers in one state and across a submachine level is explored to closure for every event type, directly, queued and deferred; selection order, the event type seen by each behaviour (any holding the exact type) and payload checksums are compared.',
  'C19': 'The same nested machine is compiled under the four policies; every behaviour position of every taken transition reports the active ids, compared with the policy table of the model; the four builds are additionally explored in lock-step and must be indistinguishable apart from those in-behaviour ids.',
+ 'C15': 'Every reachable configuration (with queued/deferred events pending) is used as copy point; copy-construction from a const reference, copy-assignment and (backmp11) move-construction/assignment are followed by every interleaving of continuation operations on both machines; each reaction is compared with the original rebuilt by replay, every callback is attributed to a machine object by address, and the untouched machine must stay unchanged.',
+ 'C16': 'Every reachable configuration with empty queues is saved to a text and a binary archive and loaded into a fresh machine (back, back11); active ids, history, do_serialize data and every continuation are compared with the original rebuilt by replay.',
  'C09': 'Submachine with direct, fork, entry-point and exit-point rows explored to closure, including the exit point event sent from outside in every configuration.',
 }
 NOTE = 'Trusted: the reference model gen/model.py and oracle gen/oracles.py; the zoo structures (gen/zoo.py) stand for the "programs" quantifier; g++ 12 -O0; private members are only read (-fno-access-control). Bounds: zoo machines, pending queue <= stated bound; residue per DESIGN section 5.'
@@ -59,6 +61,8 @@ def main():
         'engines': [
             {'name': 'lockstep', 'path': 'gen/lockstep.py + harness/explore.hpp (serve mode)', 'serves_properties': ['C13', 'C19'],
              'kind_free_text': 'product-state exploration of several real implementations of one description under identical operations and environment answers'},
+            {'name': 'copy-differential', 'path': 'gen/custom.py (run_copy) + harness/explore.hpp (servecopy mode)', 'serves_properties': ['C15', 'C16'],
+             'kind_free_text': 'exhaustive enumeration of copy/save points and continuation interleavings on two live machine objects, differential against replay'},
             {'name': 'explorer', 'path': 'harness/explore.hpp + gen/conform.py + gen/model.py', 'serves_properties': sorted(claimed),
              'kind_free_text': 'explicit-state bounded-exhaustive exploration of the real back-ends (BFS over API calls, DFS over environment answers, canonical state hashing) with reference-model conformance of every execution'},
         ],
